@@ -142,6 +142,15 @@ mut("f37-revert-scope-landing-pad", ["C14"], "no-blocking-landing-pad:Scope",
 mut("f37-scope-skips-joins-when-body-panics", ["C14"], "scope/join-after-body",
     ("src/scoped.rs", "    let dtor_panic = scope.drop_all();\n    match (ret, dtor_panic) {", "    let dtor_panic = if ret.is_ok() { scope.drop_all() } else { None };\n    match (ret, dtor_panic) {"))
 
+# ---- F38 (known finding, unrepaired): the repaired shape must be accepted by the rule that reports it
+ben("f38-repair-shape-is-silent", ["C18", "C08"],
+    ("src/io/sys/unix/epoll.rs", "        // info!(\"io timeout = {:?}\", dur);\n        // remember when the timer is due before it is armed, see `EventData::store_co`\n        let ns = u64::try_from(timeout.as_nanos()).unwrap_or(u64::MAX);",
+     "        let timeout = io.remaining_timeout(timeout);\n        // remember when the timer is due before it is armed, see `EventData::store_co`\n        let ns = u64::try_from(timeout.as_nanos()).unwrap_or(u64::MAX);"),
+    ("src/io/sys/unix/mod.rs", "    pub deadline: AtomicU64,\n    pub co: AtomicOption<CoroutineImpl>,", "    pub deadline: AtomicU64,\n    #[cfg(feature = \"io_timeout\")]\n    pub op_deadline: AtomicU64,\n    pub co: AtomicOption<CoroutineImpl>,"),
+    ("src/io/sys/unix/mod.rs", "            deadline: AtomicU64::new(0),\n            co: AtomicOption::none(),", "            deadline: AtomicU64::new(0),\n            #[cfg(feature = \"io_timeout\")]\n            op_deadline: AtomicU64::new(0),\n            co: AtomicOption::none(),"),
+    ("src/io/sys/unix/mod.rs", "    /// publish the coroutine that blocks on this io.", "    #[cfg(feature = \"io_timeout\")]\n    pub(crate) fn remaining_timeout(&self, timeout: std::time::Duration) -> std::time::Duration {\n        let now = crate::timeout_list::now();\n        match self.op_deadline.load(Ordering::Relaxed) {\n            0 => {\n                let ns = u64::try_from(timeout.as_nanos()).unwrap_or(u64::MAX);\n                self.op_deadline.store(now.saturating_add(ns).max(1), Ordering::Relaxed);\n                timeout\n            }\n            deadline => std::time::Duration::from_millis(deadline.saturating_sub(now).div_ceil(1_000_000)),\n        }\n    }\n\n    /// publish the coroutine that blocks on this io."),
+    ("src/io/sys/unix/mod.rs", "    pub fn reset(&self) -> usize {\n        self.io_flag.swap(0, Ordering::AcqRel)", "    pub fn reset(&self) -> usize {\n        #[cfg(feature = \"io_timeout\")]\n        self.op_deadline.store(0, Ordering::Relaxed);\n        self.io_flag.swap(0, Ordering::AcqRel)"))
+
 # ---- F18: revert (nested run while the wait_kernel guard is held)
 mut("f18-revert-nested-run-under-guard", ["C01", "C02"], "no-nested-run-under-guard",
     ("src/park.rs", "                drop(g);\n                // here may have recursive call for subscribe", "                let _keep = &g;\n                // here may have recursive call for subscribe"))
